@@ -68,5 +68,15 @@ impl FungibleAllowList for ExampleContract {
 #[contractimpl(contracttrait)]
 impl AccessControl for ExampleContract {}
 
-#[contractimpl(contracttrait)]
-impl FungibleBurnable for ExampleContract {}
+#[contractimpl]
+impl FungibleBurnable for ExampleContract {
+    // The default `FungibleBurnable` methods call `Base::burn*` and would skip the
+    // allowlist check: a disallowed holder could still burn.
+    fn burn(e: &Env, from: Address, amount: i128) {
+        AllowList::burn(e, &from, amount);
+    }
+
+    fn burn_from(e: &Env, spender: Address, from: Address, amount: i128) {
+        AllowList::burn_from(e, &spender, &from, amount);
+    }
+}
